@@ -107,8 +107,8 @@ type Sim struct {
 	writing    map[int]bool // instance whose write-commit mutex is held by some task
 	locks      map[any]*lockInfo
 	ParkLocks  map[string]bool // instrumented locks (by name) whose acquisitions are scheduling points in this run
-	Deadlock   string // description of a lock cycle among parked tasks, once one was seen
-	DeadlockOn string // the locks of that cycle ("conninfo+store")
+	Deadlock   string          // description of a lock cycle among parked tasks, once one was seen
+	DeadlockOn string          // the locks of that cycle ("conninfo+store")
 	// hooks for profiles
 	OnYieldOpp func(site string, t *Task) // fault/crash opportunity at selected yield sites (every mode)
 	OnNote     func(ev string, t *Task)
@@ -178,13 +178,13 @@ func (s *Sim) install() {
 	s.ctrl = goid()
 	curSim.Store(s)
 	verifhook.Install(&verifhook.Hooks{
-		Yield:    s.hookYield,
-		YieldL:   s.hookYieldL,
-		Spin:     s.hookSpin,
-		Note:     s.hookNote,
-		Fault:    s.hookFault,
-		FSEvent:  s.hookFS,
-		WrapFile: s.hookWrap,
+		Yield:     s.hookYield,
+		YieldL:    s.hookYieldL,
+		Spin:      s.hookSpin,
+		Note:      s.hookNote,
+		Fault:     s.hookFault,
+		FSEvent:   s.hookFS,
+		WrapFile:  s.hookWrap,
 		LockYield: s.hookLockYield,
 		LockNote:  s.hookLockNote,
 		Evict: func(db int, key string, memUsed int64, limit uint64) {
@@ -328,6 +328,9 @@ func (s *Sim) hookLockYield(m any, name string, write bool) {
 		return
 	}
 	t.waitLock, t.waitWrite, t.waitName = m, write, name
+	if s.ParkLocks[name] {
+		must = true // an opted-in lock is a scheduling point whatever the profile's site filter says
+	}
 	s.mu.Unlock()
 	s.parkEx(site, false, must)
 	s.mu.Lock()
